@@ -109,7 +109,10 @@ def run_case(case):
             return [Discrepancy('C20/%s/loads-raised/%s' % (algo, type(e).__name__), repr(e))], None, classes
         c0 = CloneSession(case, g0)
         fm, fa, fi = _snapshot(sess)
-        gm, ga, gi = _snapshot(c0)
+        try:
+            gm, ga, gi = _snapshot(c0)
+        except Exception as e:
+            return [Discrepancy('C20/%s/clone-state-unreadable/%s' % (algo, H.exc_sig(e)), 'reading the restored copy\'s cache / archive / info raised %r' % (e,))], None, classes
         if not (_same_state(before[0], fm) and _same_state(fm, before[0]) and _same_state(before[1], fa) and _same_state(fa, before[1]) and before[2] == fi):
             # serialising and restoring is an observation: the original's memory, statistics and the (shared) stored contents are what they were
             out.append(Discrepancy('C20/%s/round-trip-changed-original-or-store' % algo, 'before: residents %r archive %r info %r ; after: %r %r %r' % (
